@@ -456,6 +456,10 @@ def run(chk: Check) -> None:
     run_like_pair(chk, prog)
     run_text(chk, prog)
     run_like_terms_promise(chk, prog)
+    # contracts of other parts of the library this check takes for granted (summaries, token model, reference grammar):
+    # the clauses that check the source against them, replayed under this property (props/contracts.py)
+    from .contracts import run_contracts
+    run_contracts(chk, prog, ['tokenizer', 'parser'])
     chk.max_undecided = 0
 
 
